@@ -41,45 +41,102 @@ def _cmp(left, op, right, subst, env):
   return {'<': k < 0, '<=': k <= 0, '==': k == 0, '!=': k != 0}[sym]
 
 
-def fold_numeric(expr, subst):
-  """Numeric value of `expr` once every atom of `subst` with a constant value is replaced by it: only literals, module constants
-  and + - * / // % ** abs min max are evaluated (arithmetic on numbers, nothing of the analysed program runs).  None if not constant."""
+# Module-level functions that are one `return <expression>` over their parameters, literals, arithmetic / bit / boolean
+# operators, comparisons and calls of other such functions (e.g. _is_power_of_2): published by the framework for every run.
+# A call of one of them with constant arguments is folded by substituting the arguments into the returned expression.
+PURE_FUNCS = {}
+
+
+def fold_numeric(expr, subst, _depth=0):
+  """Value of `expr` once every atom of `subst` with a constant value is replaced by it: only literals, module constants,
+  + - * / // % ** & | ^ << >>, abs min max int float, comparisons, and / or / not (with Python's operand-returning semantics),
+  conditional expressions, membership in literal containers and calls of PURE_FUNCS are evaluated - arithmetic on constants,
+  the way a compiler folds them; nothing of the analysed program is imported or run.  None if not constant."""
   import operator
   from fractions import Fraction
   ops = {ast.Add: operator.add, ast.Sub: operator.sub, ast.Mult: operator.mul, ast.FloorDiv: operator.floordiv, ast.Mod: operator.mod,
-         ast.Div: operator.truediv}
+         ast.Div: operator.truediv, ast.BitAnd: operator.and_, ast.BitOr: operator.or_, ast.BitXor: operator.xor,
+         ast.LShift: operator.lshift, ast.RShift: operator.rshift, ast.Pow: operator.pow}
+  cmps = {ast.Lt: operator.lt, ast.LtE: operator.le, ast.Gt: operator.gt, ast.GtE: operator.ge, ast.Eq: operator.eq, ast.NotEq: operator.ne}
 
-  def ev(n):
+  def ev(n, env, depth):
     t = norm_text(n) if isinstance(n, ast.expr) else None
-    if t in subst:
+    if isinstance(n, ast.Name) and n.id in env:
+      return env[n.id]
+    if t in subst and not env:
       k = subst[t].const_value() if hasattr(subst[t], 'const_value') else None
       if k is None:
         raise ValueError
       return k if k.denominator != 1 else int(k)
+    if isinstance(n, ast.Constant) and isinstance(n.value, bool):
+      return n.value
     c = U.const_value(n)
     if c is not None:
       return Fraction(str(c)) if isinstance(c, float) else c
     if isinstance(n, ast.BinOp) and type(n.op) in ops:
-      a, b = ev(n.left), ev(n.right)
+      a, b = ev(n.left, env, depth), ev(n.right, env, depth)
       if isinstance(n.op, (ast.FloorDiv, ast.Mod, ast.Div)) and b == 0:
         raise ValueError
       if isinstance(n.op, ast.Div):
         return Fraction(a) / Fraction(b)
+      if isinstance(n.op, (ast.BitAnd, ast.BitOr, ast.BitXor, ast.LShift, ast.RShift)) and not (isinstance(a, int) and isinstance(b, int)):
+        raise ValueError
+      if isinstance(n.op, (ast.LShift, ast.Pow)) and (not isinstance(b, int) or b < 0 or b > 64):
+        raise ValueError
       return ops[type(n.op)](a, b)
     if isinstance(n, ast.UnaryOp) and isinstance(n.op, (ast.USub, ast.UAdd)):
-      v = ev(n.operand)
+      v = ev(n.operand, env, depth)
       return -v if isinstance(n.op, ast.USub) else v
-    if isinstance(n, ast.Call) and dotted(n.func) in ('abs', 'min', 'max', 'int', 'float') and n.args and not n.keywords:
-      vals = [ev(a) for a in n.args]
-      if dotted(n.func) in ('int', 'float'):
+    if isinstance(n, ast.UnaryOp) and isinstance(n.op, ast.Not):
+      return not ev(n.operand, env, depth)
+    if isinstance(n, ast.BoolOp):
+      v = None
+      for x in n.values:
+        v = ev(x, env, depth)
+        if (isinstance(n.op, ast.And) and not v) or (isinstance(n.op, ast.Or) and v):
+          return v
+      return v
+    if isinstance(n, ast.IfExp):
+      return ev(n.body if ev(n.test, env, depth) else n.orelse, env, depth)
+    if isinstance(n, ast.Compare):
+      vals = [ev(n.left, env, depth)]
+      for o, cpr in zip(n.ops, n.comparators):
+        if isinstance(o, (ast.In, ast.NotIn)):
+          box = None
+          if isinstance(cpr, (ast.Tuple, ast.List, ast.Set, ast.Dict)):
+            box = ast.literal_eval(cpr)
+          elif isinstance(cpr, (ast.Name, ast.Attribute)):
+            box = CONTAINERS.get(cpr.id if isinstance(cpr, ast.Name) else cpr.attr)
+          if box is None:
+            raise ValueError
+          inside = any(vals[-1] == x for x in box)
+          if inside != isinstance(o, ast.In):
+            return False
+          continue
+        if type(o) not in cmps:
+          raise ValueError
+        nxt = ev(cpr, env, depth)
+        if not cmps[type(o)](vals[-1], nxt):
+          return False
+        vals.append(nxt)
+      return True
+    if isinstance(n, ast.Call) and dotted(n.func) in ('abs', 'min', 'max', 'int', 'float', 'bool') and n.args and not n.keywords:
+      vals = [ev(a, env, depth) for a in n.args]
+      if dotted(n.func) in ('int', 'float', 'bool'):
         if len(vals) != 1 or (dotted(n.func) == 'int' and Fraction(vals[0]).denominator != 1):
           raise ValueError
-        return vals[0]
+        return bool(vals[0]) if dotted(n.func) == 'bool' else vals[0]
       return {'abs': lambda v: abs(v[0]), 'min': min, 'max': max}[dotted(n.func)](vals)
+    if isinstance(n, ast.Call) and not n.keywords and depth < 4:
+      f = PURE_FUNCS.get((dotted(n.func) or '').split('.')[-1])
+      if f is not None and len(f.args.args) == len(n.args):
+        env2 = dict((a.arg, ev(x, env, depth)) for a, x in zip(f.args.args, n.args))
+        ret = [st for st in f.body if isinstance(st, ast.Return)][0]
+        return ev(ret.value, env2, depth + 1)
     raise ValueError
   try:
-    return ev(expr)
-  except (ValueError, TypeError, ZeroDivisionError):
+    return ev(expr, {}, _depth)
+  except (ValueError, TypeError, ZeroDivisionError, SyntaxError, OverflowError):
     return None
 
 
@@ -119,8 +176,8 @@ def tv(test, subst, env=None):
   if isinstance(test, ast.Constant) and isinstance(test.value, bool):
     return test.value
   if isinstance(test, (ast.BinOp, ast.Name, ast.Attribute, ast.Call, ast.UnaryOp)):
-    k = fold_numeric(test, subst)       # the truth of a number
-    return None if k is None else (k != 0)
+    k = fold_numeric(test, subst)       # the truth of a value
+    return None if k is None else bool(k)
   return None
 
 
